@@ -106,12 +106,20 @@ def compare_fresh(ck, p, hist_prefix, mode, cubic, extra_key=''):
 def apply_op(p, h, cubic, rnd):
     op = h['op']
     M = lambda s: mk(s, cubic)
+    n = len(p)
+
+    def ix(i, insert=False):
+        # Python index spelling of the model's 1-based position: non-negative or the equivalent negative index
+        idx = i - 1
+        if rnd.random() < 0.4 and idx < n:
+            return idx - n if not (insert and idx == 0 and rnd.random() < 0.5) else -n - rnd.choice([0, 3])
+        return idx
     if op == 'SetItem':
-        p[h['i'] - 1] = M(h['s'])
+        p[ix(h['i'])] = M(h['s'])
     elif op == 'SetSlice':
         p[h['i'] - 1:h['j'] - 1] = [M(x) for x in h['r']]
     elif op == 'Insert':
-        p.insert(h['i'] - 1, M(h['s']))
+        p.insert(ix(h['i'], True), M(h['s']))
     elif op == 'Append':
         p.append(M(h['s']))
     elif op == 'Extend':
@@ -120,12 +128,12 @@ def apply_op(p, h, cubic, rnd):
         else:
             p += [M(x) for x in h['r']]
     elif op == 'DelItem':
-        del p[h['i'] - 1]
+        del p[ix(h['i'])]
     elif op == 'DelSlice':
         del p[h['i'] - 1:h['j'] - 1]
     elif op == 'Pop':
         if h['i'] == 1 and len(p) > 1:
-            p.pop(0)
+            p.pop(rnd.choice([0, -n]))
         else:
             p.pop()
     elif op == 'Remove':
@@ -201,8 +209,17 @@ def segment_level(ck, rnd, n):
     dump = 'SPECIFICATION Spec\nCONSTANTS MaxOps = %d\n Variant = "correct"\nINVARIANT Dump\n' % (3 if ck.tier == 'quick' else 4)
     cases = ck.tlc('SegCache', dump, workers=1, coverage=False).cases
     rnd.shuffle(cases)
-    ERR = {1: 1e-1, 2: 1e-12}       # requested error classes (1 = loose, 2 = tight)
-    DEP = {1: 1, 2: 5}
+    # requested error / depth classes (1 = loose / shallow, 2 = tight / deep), chosen so that in the recursive
+    # fallback each of the four combinations gives a visibly different accuracy (measured: -0.51, -0.035, -3e-5)
+    ERR = {1: 0.5, 2: 1e-2}
+    DEP = {1: 1, 2: 10}
+    memo = {}
+
+    def fresh_len(cls, bpts, scipy_on, **kw):
+        key = (cls.__name__, bpts, scipy_on, tuple(sorted(kw.items())))
+        if key not in memo:
+            memo[key] = cls(*bpts).length(**kw)
+        return memo[key]
     BP = {1: (0j, 40 + 100j, 80 - 60j, 100 + 0j), 2: (0j, 10 + 60j, 130 + 40j, 100 + 20j)}
     done = 0
     for scipy_on in (False, True):
@@ -228,12 +245,11 @@ def segment_level(ck, rnd, n):
                         elif h['op'] == 'QLen':
                             kw = dict(error=ERR[h['e']], min_depth=DEP[h['d']])
                             got = o.length(**kw)
-                            fresh = cls(*o.bpoints())
-                            ref = fresh.length(error=1e-13, min_depth=9)
-                            want = cls(*o.bpoints()).length(**kw)
+                            ref = fresh_len(cls, o.bpoints(), scipy_on, error=1e-12, min_depth=11)
+                            want = fresh_len(cls, o.bpoints(), scipy_on, **kw)
                             if abs(got - ref) > abs(want - ref) + 1e-9 * abs(ref):
-                                key = '%s.length/cache-reused-for-tighter-error' % cls.__name__ if h['e'] == 2 else \
-                                    '%s.length/stale-cache' % cls.__name__
+                                key = '%s.length/cache-reused-for-tighter-error' % cls.__name__ if h['e'] == 2 and h['d'] == 1 else \
+                                    '%s.length/stale-or-insufficient-cache' % cls.__name__
                                 ck.disagree(key=key, site='svgpathtools/path.py:%s.length/_length_info' % cls.__name__,
                                             what='length(%s) after %s = %r; a fresh segment answers %r (reference %r)' % (
                                                 kw, [x['op'] for x in hist], got, want, ref),
@@ -376,7 +392,7 @@ def run(ck):
     finally:
         sppath._quad_available = old
     ck.count('histories_replayed', state['n'])
-    segment_level(ck, rnd, 150 if quick else 2000)
+    segment_level(ck, rnd, 400 if quick else 4000)
     hash_eq(ck)
     # V
     traces = [[norm_event(h) for h in record_random(rnd, 60)] for _ in range(150 if quick else 1500)]
